@@ -6,6 +6,9 @@
 
 mod eyesim;
 mod framework;
+mod iosim;
+mod net;
+mod tlsfix;
 mod poolsim;
 mod rng;
 mod simrt;
@@ -114,6 +117,9 @@ fn check(args: &Args) -> i32 {
             let sc = eyesim::EyeSim { property: if property == "C10" { "C10" } else { "C11" } };
             parts.push(run_part(&sc, &cfg("eyesim"), &known, &mut verdict));
         }
+        "C18" => {
+            parts.push(run_part(&iosim::IoSim, &cfg("iosim"), &known, &mut verdict));
+        }
         "C02" | "C03" | "C04" | "C05" | "C06" | "C14" | "C15" | "C17" | "C19" => {
             let sc = poolsim::PoolSim { property: leak(property) };
             parts.push(run_part(&sc, &cfg("poolsim"), &known, &mut verdict));
@@ -198,6 +204,7 @@ fn replay(args: &Args) -> i32 {
     let rf = read_replay(&PathBuf::from(&args.target));
     match rf.engine.as_str() {
         "eyesim" => replay_with(&eyesim::EyeSim { property: "C10" }, &rf, args.machine),
+        "iosim" => replay_with(&iosim::IoSim, &rf, args.machine),
         "poolsim" => replay_with(&poolsim::PoolSim { property: leak(&rf.property) }, &rf, args.machine),
         other => {
             eprintln!("HARNESS-ERROR: unknown engine {} in replay file", other);
@@ -222,6 +229,7 @@ fn determinism_with<S: Scenario>(sc: &S, args: &Args) -> i32 {
 
 fn determinism(args: &Args) -> i32 {
     match args.target.as_str() {
+        "C18" => determinism_with(&iosim::IoSim, args),
         "C10" | "C11" | "eyesim" => determinism_with(&eyesim::EyeSim { property: "C10" }, args),
         "C02" | "C03" | "C04" | "C05" | "C06" | "C14" | "C15" | "C17" | "C19" => {
             determinism_with(&poolsim::PoolSim { property: leak(&args.target) }, args)
